@@ -86,6 +86,9 @@ impl Prop for C11 {
     fn id(&self) -> &'static str {
         "C11"
     }
+    fn fuzz_target(&self) -> Option<&'static str> {
+        Some("fz_choices")
+    }
     fn stream_len(&self, _tier: Tier) -> usize {
         700
     }
